@@ -298,6 +298,10 @@ scStartLine(void)
 	}
 	if (!scSrcLines) {
 		scLine = 0;
+		/* A one-character system command line without a newline at the
+		 * end of the input leaves the flag set: scanTokenCases would
+		 * hand out system command tokens for ever. */
+		scIsSysCmd = false;
 		phaseDEBUG(dbOut, "Scan ended.\n");
 	}
 	else {
